@@ -59,6 +59,8 @@ theorem order_facts_as_expected :
     flushSends = [("DB.VerifWaitFlushIdle", "&empty"), ("DB.rotateWalAndFlushMemstore", "swapMemstore(db)")] ∧
     swapMemstoreBody = "{ storeToFlush := db.memStore.writeStore db.memStore = &RWMemstore{ readStore: storeToFlush, writeStore: memstore.NewMemStore(), } return &storeToFlush }" ∧
     dbLockShared = true ∧
+    dbChannels = [("compactionTickerStopChannel", "make(chan interface{}, 1)"), ("doneCompactionChannel", "make(chan bool)"),
+      ("doneFlushChannel", "make(chan bool)"), ("storeFlushChannel", "make(chan memStoreFlushAction)")] ∧
     clientPrologues = [
       ("DB.Close", ["DB.rwLock", "DB.rwLock", "DB.open", "DB.closed"], [.dbW]),
       ("DB.Delete", [], []),
@@ -119,6 +121,22 @@ Contains / ScanStartingAt / ScanRange` there is no assignment to a receiver fiel
 and every entry point exists -/
 theorem documented_reads_write_nothing :
     ∀ p ∈ documentedReads, p.found = true ∧ p.writes = [] := by decide
+
+/-- callees on the documented read paths that are NOT followed (methods of objects held in receiver fields): each is
+a read of an immutable object or an internally synchronised one — a runtime fact, modelled, not verified:
+`bufferPool.Get/Put` (capnp `bufferpool.Pool`: `sync.Pool`-backed, safe for concurrent use; the readers copy out of the
+pooled buffer before `Put`), `mmapReader.ReadAt` (read-only mapping), `header.Decompress*` (the compressor objects are
+stateless), `bloomFilter.Contains` (reads the bit set loaded at open), `v0DataReader.ReadNextAt` (legacy v0 tables: the
+proto mmap reader, same contract). -/
+def allowedCallees : List String :=
+  ["MMapReader.bufferPool.Get", "MMapReader.bufferPool.Put", "MMapReader.header.Decompress",
+   "MMapReader.header.DecompressWithBuf", "MMapReader.mmapReader.ReadAt", "SSTableReader.bloomFilter.Contains",
+   "SSTableReader.v0DataReader.ReadNextAt"]
+
+/-- … and nothing else is called on an object reachable from the shared handle: a new stateful helper on a read
+path (a cached hasher, a scratch buffer, a statistics counter behind a method) shows up here -/
+theorem documented_reads_call_only_known_readers :
+    ∀ p ∈ documentedReads, ∀ c ∈ p.notFollowed, c ∈ allowedCallees := by decide
 
 /-- the extraction does see writes where there are some: `Scan` appends to `miscClosers` (it is outside the
 documented set), `Close` flips the flags -/
